@@ -221,7 +221,15 @@ class Heap:
                     elif (isinstance(node, ast.Call) and norm(node.func) == 'list' and not node.args) or (isinstance(node, ast.List) and not node.elts):
                         cv[(c, nm)] = self.new_list([], '@classvar_%s_%s' % (c, nm))
                     else:
-                        continue
+                        # a table of constants (tuple / frozenset / list of str, int ...): the folded value
+                        home = self.module._home(c) if hasattr(self.module, '_home') else self.module
+                        val = home.consts.get(c, {}).get(nm) if home is not None else None
+                        if isinstance(val, (tuple, frozenset, str, int, bytes)) and not isinstance(val, bool):
+                            cv[(c, nm)] = val
+                        elif isinstance(val, list) and all(isinstance(x, (str, int, bytes)) for x in val):
+                            cv[(c, nm)] = self.new_list(list(val), '@classvar_%s_%s' % (c, nm))
+                        else:
+                            continue
                 return cv[(c, nm)]
         # class-level alias like `append = add`
         if o['__class__'] in self.module.classes:
@@ -735,6 +743,30 @@ class Interp:
                 for k_, v_ in pairs:
                     h.dict_set(d_, k_, v_)
             return d_
+        if isinstance(fn, ast.Name) and fn.id in ('getattr', 'setattr', 'hasattr') and fn.id not in env and args and isinstance(args[0], Ref) \
+                and len(args) >= 2 and isinstance(args[1], (str, SStr)):
+            # attribute access under a computed (but decided) name; written names are already mangled
+            nm_ = args[1].concrete() if isinstance(args[1], SStr) else args[1]
+            if nm_ is None:
+                raise AnalysisError('heap model: attribute name is not decided: %s' % norm(e)[:60])
+            o_ = h.objs[args[0].name]
+            if fn.id == 'setattr' and len(args) == 3:
+                h.setattr(args[0], nm_, args[2], None)
+                return None
+            if fn.id == 'hasattr':
+                try:
+                    h.getattr(args[0], nm_, None)
+                    return True
+                except (AnalysisError, Raised):
+                    return False
+            if fn.id == 'getattr':
+                try:
+                    return h.getattr(args[0], nm_, None)
+                except AnalysisError:
+                    if len(args) == 3:
+                        return args[2]
+                    raise Raised('AttributeError', h.version, e.lineno)
+            _ = o_
         if isinstance(fn, ast.Name) and fn.id in ('bool',) and len(args) == 1:
             return self.truth(args[0])
         if isinstance(fn, ast.Name) and fn.id in ('set', 'frozenset') and len(args) <= 1 and fn.id not in env:
@@ -798,6 +830,8 @@ class Interp:
         if isinstance(fn, ast.Name) and fn.id == 'len' and len(args) == 1 and isinstance(args[0], SStr):
             n = args[0].length()
             return n.const if not n.terms else n
+        if isinstance(fn, ast.Name) and fn.id == 'str' and 'str' not in h.hooks and len(args) == 1 and isinstance(args[0], int) and not isinstance(args[0], bool):
+            return str(args[0])
         if isinstance(fn, ast.Name) and fn.id == 'str' and len(args) == 1 and isinstance(args[0], (SStr, str)):
             return args[0]
         if isinstance(fn, ast.Name) and fn.id == 'len' and len(args) == 1 and (h.is_list(args[0]) or isinstance(args[0], (list, tuple))):
